@@ -17,6 +17,9 @@
 //!   conn <hex> [k:tail]        tail = d(rained) | p(ending) | i(nvalid); the hint is only needed for
 //!                              inputs that cannot be segmented in-process (declared lengths >= 10^6)
 //!
+//! All findings of this property (F4, F5, F16a–F16e) are fixed in /repo; their inputs stay in the generators
+//! and in corpus/C16 as regression cases and any failure is a plain violation.
+//!
 //! Oracle (the property on the implementation's observables, independent of the Lean model): the
 //! child must not exit, every connection must be answered, closed, or be waiting for the rest of a
 //! truncated packet within 5 s, no session task may panic (child stderr), peak RSS must stay below
@@ -105,26 +108,29 @@ fn measured<T>(f: impl FnOnce() -> T) -> (T, u64) {
 // small helpers
 // ------------------------------------------------------------------------------------------
 
-/// `Stats` keeps the first 50 oracle failures only: repeats of a *known* finding are counted after the
-/// fifth so that they cannot crowd out a failure that matches no known finding.
-fn report_failure(stats: &mut Stats, case: u64, what: &str, finding: &str, replay: Vec<String>) {
-    if !finding.is_empty() {
-        let key = format!("known.{}", finding);
-        stats.count(&key);
-        if stats.counters.get(&key).copied().unwrap_or(0) > 5 {
-            return;
-        }
-    } else {
-        stats.count("unknown-oracle-failures");
+/// All findings of C16 (F4, F5, F16a–F16e) are fixed in /repo: no oracle failure is tagged with a known
+/// finding any more.  `regression_of` is the id of the fixed finding whose predicate the input matches (or
+/// ""): it only goes into the text, the failure is a plain violation.  `Stats` keeps the first 50 oracle
+/// failures: repeats of the same regression are counted after the fifth so that they cannot crowd out others.
+fn report_failure(stats: &mut Stats, case: u64, what: &str, regression_of: &str, replay: Vec<String>) {
+    if regression_of.is_empty() {
+        stats.count("oracle-failures.other");
+        stats.oracle_failure(case, what, "", replay);
+        return;
     }
-    stats.oracle_failure(case, what, finding, replay);
+    let key = format!("oracle-failures.regression-{}", regression_of);
+    stats.count(&key);
+    if stats.counters.get(&key).copied().unwrap_or(0) > 5 {
+        return;
+    }
+    stats.oracle_failure(case, &format!("{} (regression of fixed finding {})", what, regression_of), "", replay);
 }
 
-/// in-process allocation oracle: `size_of::<RespIndex>() · (MAX_NESTING + 1)` bytes per input byte, the
-/// constant of theorem `C16_alloc` for the tree with f4.diff + f16b.diff (MAX_NESTING = 128)
-const ALLOC_PER_BYTE: u64 = 32 * 129;
 const SPIN: u64 = 100_000_000_000;
 const STACK_LEVELS: u64 = 11_000;
+/// in-process allocation oracle: `size_of::<RespIndex>() · (MAX_NESTING + 1)` bytes per input byte, the
+/// constant of theorem `C16_alloc` (MAX_NESTING = 128)
+const ALLOC_PER_BYTE: u64 = 32 * 129;
 const RLIMIT_BYTES: u64 = 2 << 30;
 
 fn fnv_str(h: u64, s: &str) -> u64 {
